@@ -69,6 +69,10 @@ CONST_AMP = uf("CONST_AMP", Ref, R)    # value of a constant pulse's amplitude
 CONST_DET = uf("CONST_DET", Ref, R)
 IS_CONST = uf("IS_CONST", Ref, B)      # both waveforms are ConstantWaveform
 
+def _vp(p):
+    return valid_pulse(p)
+
+
 contract(PF, "Pulse.ConstantPulse", props=("C02", "C15", "C16"), trusted=True,
          note="constructor chain ConstantWaveform/Pulse.__init__ (numpy sample arrays); proved field-wise in the C16 set",
          params={"cls": "opaque", "duration": "int", "amplitude": "real", "detuning": "real", "phase": "real", "post_phase_shift": "real"},
@@ -76,6 +80,7 @@ contract(PF, "Pulse.ConstantPulse", props=("C02", "C15", "C16"), trusted=True,
          requires=lambda c: [],
          raises={"ValueError": ("only-if", lambda c: z3.Or(T(c.duration) < 1, T(c.amplitude) < 0))},
          ensures=lambda c: [
+             ("valid", _vp(T(c.res))),
              ("duration", p_duration(T(c.res)) == T(c.duration)),
              ("const", z3.And(IS_CONST(T(c.res)), CONST_AMP(T(c.res)) == T(c.amplitude), CONST_DET(T(c.res)) == T(c.detuning))),
              ("detuned-delay-iff-zero-amp", IS_DETUNED_DELAY(T(c.res)) == (T(c.amplitude) == 0)),
